@@ -122,14 +122,63 @@ def run(ctx):
                         for (n, dest, emu), r, q in list(zip(meta, resps, reqs)) + list(zip(rmeta, rresps, rreqs)):
                             judge(ctx, n, mode, emu, state, spec, dest_present, size, data, current, dest, r, q,
                                   cache, key, algo)
+                        # nothing but the named destinations may appear in the destination directory
+                        named = {os.path.basename(d) for (_n, d, _e) in meta + rmeta}
+                        extra = set(os.listdir(ddir)) - named
+                        if extra:
+                            ctx.violation(f"extract|{mode}|{state}|stray-file-next-to-destination",
+                                          f"extraction ({state}, destination {'present' if dest_present else 'absent'}) left files "
+                                          f"nobody named in the destination directory: {sorted(extra)[:4]}",
+                                          {"mode": mode, "state": state, "steps": [[mode, q] for q in reqs[:3]]})
                         ctx.rm(ddir)
             finally:
                 if state == "missing":
                     os.rename(path + ".gone", path)
                 if cm:
                     cm.__exit__(None, None, None)
+    repeat_after_damage(ctx, rng, cache, destroot, modes)
     for d in fic.values():
         d.close()
+
+
+def repeat_after_damage(ctx, rng, cache, destroot, modes):
+    """Extract, damage the content IN PLACE (same inode), extract again to the same destination: the second checked
+    extraction must not succeed while the destination holds bytes that fail verification."""
+    for size in (1, 300, 20000):
+        data = rng.randbytes(size)
+        key = f"again-{size}"
+        w = ctx.call("sync@astd", {"op": "write", "cache": cache, "key": key, "data": ctx.data(data)})
+        if not ev.is_ok(w):
+            continue
+        sri = w["ok"]["sri"]
+        path = ref.content_path_sri(cache, sri)
+        for mode in modes:
+            for n in [x for x in retr.CHECKED_EXTRACT if retr.available(x, mode)]:
+                ddir = os.path.join(destroot, f"again-{size}-{mode.replace('@', '-')}-{n}")
+                os.makedirs(ddir)
+                dest = os.path.join(ddir, "out")
+                q = retr.request(n, cache, key, sri, dest)
+                r1 = ctx.call(mode, q)
+                with open(path, "r+b") as f:          # in place: the inode (and any hard link to it) stays the same
+                    b0 = f.read(1)
+                    f.seek(0)
+                    f.write(bytes([b0[0] ^ 0x20]))
+                damaged = open(path, "rb").read()
+                r2 = ctx.call(mode, q)
+                kind, got = retr.read_dest(dest)
+                ctx.case(distinct_key=("repeat-after-damage", n, mode, size))
+                ctx.count("repeat_after_damage")
+                if ev.is_ok(r2) and got != data:
+                    ctx.violation(f"{n}|{mode}|repeat-after-in-place-damage|Ok",
+                                  f"{n} in {mode}: extracted once, content then damaged in place, second extraction to the same "
+                                  f"destination returned Ok although the destination holds bytes that fail verification",
+                                  {"entry_point": n, "mode": mode, "size": size, "first": ev.brief(r1), "steps": [[mode, q], [mode, q]]})
+                elif not ev.is_ok(r2) and not n.startswith("hard_link") and kind in ("file", "symlink") and got == damaged:
+                    ctx.violation(f"{n}|{mode}|repeat-after-in-place-damage|unverified-bytes-left",
+                                  f"{n} in {mode}: second extraction failed verification but left the unverified bytes", {"steps": [[mode, q]]})
+                with open(path, "r+b") as f:
+                    f.write(b0)
+                ctx.rm(ddir)
 
 
 def judge(ctx, n, mode, emu, state, spec, dest_present, size, data, current, dest, r, q, cache, key, algo):
